@@ -261,9 +261,30 @@ long_cases = st.fixed_dictionaries({"mode": st.sampled_from(MODES), "setup": st.
                                     "ops": st.tuples(st.lists(op, max_size=4), st.just([["burst", 52]]), st.lists(op, max_size=6)).map(lambda t: t[0] + t[1] + t[2])})
 
 
+cmd = st.one_of(
+    st.tuples(st.just("apply"), idx, idx, st.one_of(st.none(), st.sampled_from(MODES))), st.tuples(st.just("apply"), idx, idx, st.just("New")),
+    st.tuples(st.just("remove"), idx), st.tuples(st.just("add"), idx), st.tuples(st.just("readd"), idx), st.tuples(st.just("roi"), idx, idx)).map(list)
+
+
+@st.composite
+def structured_cases(draw):
+    """k commands, u undos, r <= u redos (twice): every history undoes and redoes something"""
+    ops = []
+    for _ in range(draw(st.integers(1, 2))):
+        k = draw(st.integers(1, 5))
+        ops += [draw(cmd) for _ in range(k)]
+        u = draw(st.integers(1, k))
+        ops += [["undo"]] * u
+        ops += [["redo"]] * draw(st.integers(0, u))
+        if draw(st.booleans()):
+            ops += [["undo"]] * draw(st.integers(1, 2))
+    return {"mode": draw(st.sampled_from(MODES)), "setup": draw(st.lists(idx, min_size=1, max_size=2)), "ops": ops}
+
+
 def checks(tier):
-    n, m = {"quick": (4000, 64), "thorough": (60000, 400)}.get(tier, (10, 2))
+    n, m = {"quick": (2000, 48), "thorough": (60000, 400)}.get(tier, (10, 2))
     return [
         Check("undo_redo_histories", fn_history, strategy=cases, examples=n),
         Check("long_runs", fn_history, strategy=long_cases, examples=m),
+        Check("structured_histories", fn_history, strategy=structured_cases(), examples=n),
     ]
